@@ -659,3 +659,71 @@ package regexp2
 //@   overflow
 //@   requires 0 <= end && end < 4611686018427387904 + 17592186044416
 //@   modifies objs(fastclock)
+
+// ---------------------------------------------------------------------------------------------
+// Decoding strings to runes (runner.go, regexp.go, bufferpool.go): every decoder produces DecodeOf(runes, s),
+// whatever the previous contents of a pooled buffer were (C12), and the rune index of a byte start offset (C02).
+// ---------------------------------------------------------------------------------------------
+//@ func (p *pooledSliceBuffers[rune]) get(neededSize int, maxSize int) (buf []rune, pooled *[]rune)
+//@   trusted sync.Pool of size-classed buffers: a buffer handed out is exclusively owned until put back
+//@   requires p != nil && 0 <= neededSize
+//@   ensures len(buf) == neededSize && buf != nil && allocated(buf)
+
+//@ func (r *Runner) decodeStringWithStart(s string, startAt int) (runes []rune, runeStart int, pooled *[]rune)
+//@   props C02 C12 C08
+//@   requires r != nil && r.re != nil
+//@   modifies elems(rune)
+//@   ensures[decode] DecodeOf(runes, s)
+//@   ensures[start]  startAt >= 0 ==> IsRuneIndexOf(s, startAt, runeStart)
+//@   ensures[nostart] startAt < 0 ==> runeStart == -1
+//@   loop 0:
+//@     invariant 0 <= n && n <= RuneCount(s) && $pos == RuneStart(s, n) && len(buf) == len(s) && buf != nil
+//@     invariant forall k int {buf[k]} :: 0 <= k && k < n ==> buf[k] == RuneAtIdx(s, k)
+//@     invariant startAt < 0 ==> runeStart == -1
+//@     invariant startAt >= 0 ==> (runeStart >= 0 ==> runeStart < n && RuneStart(s, runeStart) == startAt) && (runeStart < 0 ==> runeStart == -1 && forall j int :: 0 <= j && j < n ==> RuneStart(s, j) != startAt)
+//@     decreases len(s) - $pos
+// package-level pools are created at package init and never reassigned (trusted)
+//@ axiom pools: pooledRuneBuffers != nil && pooledByteBuffers != nil
+
+//@ func (r *Runner) decodeString(s string) (runes []rune, pooled *[]rune)
+//@   props C02 C12
+//@   requires r != nil && r.re != nil
+//@   modifies elems(rune)
+//@   ensures[decode] DecodeOf(runes, s)
+//@   loop 0:
+//@     invariant 0 <= n && n <= RuneCount(s) && $pos == RuneStart(s, n) && len(buf) == len(s) && buf != nil
+//@     invariant forall k int {buf[k]} :: 0 <= k && k < n ==> buf[k] == RuneAtIdx(s, k)
+//@     decreases len(s) - $pos
+
+//@ func getRunes(s string) (r []rune)
+//@   props C02
+//@   ensures DecodeOf(r, s) && fresh(r)
+
+//@ func (re *Regexp) getRunesAndStart(s string, startAt int) (runes []rune, runeIdx int)
+//@   props C02
+//@   requires re != nil
+//@   ensures[decode] DecodeOf(runes, s)
+//@   ensures[default] startAt < 0 ==> runeIdx == ite((re.options & RightToLeft) != 0, len(runes), 0)
+//@   ensures[start]   startAt >= 0 ==> IsRuneIndexOf(s, startAt, runeIdx)
+//@   loop 0:
+//@     invariant 0 <= i && i <= RuneCount(s) && $pos == RuneStart(s, i) && len(ret) == len(s) && fresh(ret) && off(ret) == 0 && startAt >= 0
+//@     invariant forall k int {ret[k]} :: 0 <= k && k < i ==> ret[k] == RuneAtIdx(s, k)
+//@     invariant (runeIdx >= 0 ==> runeIdx < i && RuneStart(s, runeIdx) == startAt) && (runeIdx < 0 ==> runeIdx == -1 && forall j int :: 0 <= j && j < i ==> RuneStart(s, j) != startAt)
+//@     decreases len(s) - $pos
+
+// C08: byte offset table of a string: t[k] is the byte offset of rune k; nil stands for the identity (pure ASCII)
+//@ func stringByteOffsets(s string) (t []int)
+//@   props C08
+//@   ensures[nil]   t == nil ==> forall k int :: 0 <= k && k <= RuneCount(s) ==> RuneStart(s, k) == k
+//@   ensures[table] t != nil ==> len(t) == RuneCount(s) + 1 && forall k int {t[k]} :: 0 <= k && k <= RuneCount(s) ==> t[k] == RuneStart(s, k)
+//@   loop 0:
+//@     invariant 0 <= runeIndex && runeIndex <= RuneCount(s) && $pos == RuneStart(s, runeIndex)
+//@     invariant byteOffsets == nil ==> forall k int :: 0 <= k && k <= runeIndex ==> RuneStart(s, k) == k
+//@     invariant byteOffsets != nil ==> len(byteOffsets) == len(s) + 1 && fresh(byteOffsets) && off(byteOffsets) == 0 && forall k int {byteOffsets[k]} :: 0 <= k && k < runeIndex ==> byteOffsets[k] == RuneStart(s, k)
+//@     decreases len(s) - $pos
+//@   loop 1:
+//@     invariant 0 <= i && i <= runeIndex && runeIndex < RuneCount(s) && len(byteOffsets) == len(s) + 1 && fresh(byteOffsets) && off(byteOffsets) == 0 && byteOffsets != nil
+//@     invariant forall k int :: 0 <= k && k <= runeIndex ==> RuneStart(s, k) == k
+//@     invariant forall k int {byteOffsets[k]} :: 0 <= k && k < i ==> byteOffsets[k] == k
+//@     invariant strIdx == RuneStart(s, runeIndex) && $pos == RuneStart(s, runeIndex + 1)
+//@     decreases runeIndex - i
